@@ -62,6 +62,8 @@ class Gen:
                 self.ids_used.append(mid)
             self.tag += 1
             psize = self.rng.choice([8, 8, 20, 20, 50, 200])
+            if self.rng.random() < 0.004:
+                psize = self.rng.choice([2_097_100, 2_500_000, 4_300_000])      # more than one write call can take
             nhdr = self.rng.choice([0, 0, 0, 1, 3])
             out.append(f"{mid}:{psize}:{self.tag}:{nhdr}")
         return ",".join(out)
